@@ -380,8 +380,10 @@ def copy_(ex, ins, args):
     D = '(select %s (s.arr %s))' % (E, d.term)
     S = '(select %s (s.arr %s))' % (E, s.term)
     a2 = vc.declare(ex.nm('copy$dst'), 'Arr:' + es)
-    vc.assume('(forall ((i Int)) (! (= (select %s i) (ite (and (<= (s.off %s) i) (< i (+ (s.off %s) %s))) (select %s (+ (s.off %s) (- i (s.off %s)))) (select %s i))) :pattern ((select %s i))))'
-              % (a2, d.term, d.term, n, S, s.term, d.term, D, a2), ex.reach)
+    doff, soff = '(s.off %s)' % d.term, '(s.off %s)' % s.term
+    vc.assume_forall(ex.reach, lambda i, a2=a2, D=D, S=S, n=n, doff=doff, soff=soff:
+                     '(= (select %s %s) (ite (and (<= %s %s) (< %s (+ %s %s))) (select %s (+ %s (- %s %s))) (select %s %s)))'
+                     % (a2, i, doff, i, i, doff, n, S, soff, i, doff, D, i))
     ex.st.set(hn, vc.define(hn, hs, '(store %s (s.arr %s) %s)' % (E, d.term, a2)))
     top = ex.top
     if top.contract is not None and top.contract.assigns is not None:
